@@ -30,3 +30,11 @@ pub mod anyhow {
     pub type Result<T, E = super::AnyhowError> = std::result::Result<T, E>;
     pub type Error = super::AnyhowError;
 }
+
+/// std Result::or (A-std)
+pub assume_specification<T, E, F> [ std::result::Result::<T, E>::or::<F> ] (a: std::result::Result<T, E>, b: std::result::Result<T, F>) -> (r: std::result::Result<T, F>)
+    where T: std::marker::Destruct, E: std::marker::Destruct, F: std::marker::Destruct,
+    ensures
+        a is Ok ==> r == std::result::Result::<T, F>::Ok(a->Ok_0),
+        a is Err ==> r == b,
+;
